@@ -23,6 +23,8 @@ def parseBeh (s : String) : Option Beh :=
   if s == "ok" || s == "" then some .ok
   else if s == "early" then some .raisesEarly
   else if s == "late" then some .raisesLate
+  else if s == "loadfail" then some .loadFails
+  else if s == "savefail" then some .saveFails
   else match s.splitOn ":" with
     | ["omit", k] => k.toNat?.map Beh.omits
     | _ => none
